@@ -46,7 +46,7 @@ PROPS['C26'] = {
     'props_files': ['Orca/Props/C26.lean'],
     'families': [{'name': 'compiter', 'quick_n': 800, 'thorough_n': 60000}],
     'rule': 'generated components of 1-4 core modules (each 0-1 imports, 0-3 local functions) x per-module skip lists (map entries '
-            'present or absent) x reset point x 0-4 injections (before/after/alternate) replayed through the component iterator and '
+            'present or absent) x reset point x 0-4 injections (before/after/alternate anywhere, semantic_after/block_entry/block_exit/block_alt on block-structured operators; at the cursor or through inject_at with another instruction current) replayed through the component iterator and '
             'through per-module iterators; distinct by case line; non-trivial when at least one module has a visited instruction',
     'trusted': COMMON_TRUST + [
         'the injection half of C26 is decided by the differential oracle (component iterator vs module iterators, encoded modules compared byte for byte), not by a theorem',
@@ -78,7 +78,7 @@ PROPS['C28'] = {
 }
 
 
-EDIT_RULE = '8 base-module shapes (0-4 function imports interleaved with global/memory/table/tag imports, 0-4 local functions, globals recognisable by marker or type, 1-3 memories, exports, start, passive/expression/active elements, table initialiser, active data with global.get offsets; every entity carries a unique marker, every reference site a unique tag) x histories of 0-8 operations over 17 operation kinds (ids chosen among live handles, 1/12 of the sites deliberately target a deleted entity) x optional second encode; one case in five is bounded-exhaustive instead of random: a fixed base per (shape, focus = function / global / memory space) and a history read off the case number digit by digit (bijective numeration) over all operations available in the current world, so that every history of length 0, 1, 2, ... over that alphabet occurs exactly once, shortest first (quick tier: all of length <= 1; thorough: all of length <= 2 and the first ones of length 3, per base and focus); distinct by case line; non-trivial when the history has at least one operation'
+EDIT_RULE = '8 base-module shapes (0-4 function imports interleaved with global/memory/table/tag imports, 0-4 local functions, globals recognisable by marker or type, 1-3 memories, exports, start, passive/expression/active elements, table initialiser, active data with global.get offsets; some function imports declared with a non-final type, one of them held in a global of that concrete reference type; every entity carries a unique marker, every reference site a unique tag; memory sites over 24 operators incl. the eight SIMD lane accesses) x histories of 0-8 operations over 17 operation kinds (ids chosen among live handles, 1/12 of the sites deliberately target a deleted entity) x optional second encode; one case in five is bounded-exhaustive instead of random: a fixed base per (shape, focus = function / global / memory space) and a history read off the case number digit by digit (bijective numeration) over all operations available in the current world, so that every history of length 0, 1, 2, ... over that alphabet occurs exactly once, shortest first (quick tier: all of length <= 1; thorough: all of length <= 2 and the first ones of length 3, per base and focus); distinct by case line; non-trivial when the history has at least one operation'
 EDIT_TRUST = COMMON_TRUST + [
         'state invariant SpaceInv (stored ids = positions; imported entries agree with the import list; unflagged vectors are laid out): proved sufficient for encode (encode_spec), proved inductive over every operation of the edit API (Lemmas/Preserve.lean: stInv_step, stInv_run) and implied for the parsed module by the decidable check stInvB, which the model driver evaluates on the initial state of every generated history (observation line inv=)',
         'modelled, not verified: the operator <-> site-variant table of the harness, wasm-encoder / RoundtripReencoder for everything that is not an index',
@@ -131,7 +131,7 @@ LOWER_TRUST = COMMON_TRUST + [
 ]
 def lower_prop(title, files, level_text, technique, extra_families=None):
     return {
-        'title': title, 'props_files': files,
+        'title': title, 'props_files': files, 'translator': True,
         'families': [{'name': 'lower', 'quick_n': 2500, 'thorough_n': 200000}] + (extra_families or []),
         'rule': LOWER_RULE, 'trusted': LOWER_TRUST, 'assumptions': ['function bodies are non-empty (end with `end`)'],
         'design_ref': 'DESIGN.md section 6', 'level_text': level_text, 'technique': technique,
@@ -142,15 +142,18 @@ PROPS['C15'] = lower_prop('Before/after/alternate injection is lowered exactly',
     'three API paths and an oracle that recomputes the specification from the plan alone.',
     'Lean 4 proof + differential correspondence check')
 PROPS['C21'] = lower_prop('Block alternate replaces exactly the selected construct', ['Orca/Props/C21.lean'],
-    'Lean 4: the step at the selected instruction is proved for all bodies (replacement becomes the alternate, special lists discarded); the region behaviour (through the matching end, else keeps '
-    'its end, nested constructs) is decided in the kernel on concrete nested bodies and checked against an independent matching-end oracle on every generated single-alternate plan; the '
-    'general region theorem over the delete_block tracking is not proved yet (see DESIGN.md).',
-    'Lean 4 proof (local step) + kernel-decided instances + differential correspondence check')
+    'Lean 4: the resolver is proved to refine a stack machine with a removal state for every body and every plan of block-level probes and block alternates (Lemmas/StackAlt.lean, lower_eq_specA); on the machine the region theorem '
+    'holds in any context (c21_region_in_any_context, c21_else_in_any_context): the replacement stands where the construct stood, the plain lists of removed instructions stay, the run continues behind the matching end with the '
+    'frames it had in front of the construct; an alternate on an else removes the arm and keeps the end. The skeletons of plan_resolution_block_alt / discard_special_instrumentation are regenerated from the source on every run '
+    '(c21_block_alt_code_reviewed). Per case: model comparison, an independent matching-end oracle and a reference-splice oracle.',
+    'Lean 4 proof (refinement to a stack machine + region theorem) + regenerated code skeleton (translator) + differential correspondence check')
 PROPS['C22'] = lower_prop('Special-mode injections are never silently lost', ['Orca/Props/C22.lean'],
-    'Lean 4 theorems: every injection path either marks the function for special resolution or rejects the call (inject, inject_at, function-level, empty block alt; non-applicable '
-    'opcodes rejected); the model of the resolution is compared with the code on every case and the oracle requires every accepted probe id in the output; one known finding (F15). '
-    'The edit family adds function-exit code injected among additions, deletions and conversions of functions and imports (the resolution loop must reach every local function: F35).',
-    'Lean 4 proof + differential correspondence check',
+    'Lean 4 theorems: every injection path either marks the function for special resolution or rejects the call; the whole of resolve_special_instrumentation + emission is proved to refine the complete stack machine specRunF for every '
+    'plan without instruction-level alternates (lower_eq_specF) and every API history that builds one (ApiPlan); on the machine nothing is lost: function entry / exit code always comes out (lower_keeps_fn), and for plans without block '
+    'alternates every before / block-entry / block-exit / semantic-after token comes out except a probe on an unconditional branch that can only go to the function label - finding F15, named in the statement (c22_nothing_is_lost_except_F15). '
+    'The skeleton of the resolver loop and of resolve_bodies is regenerated from the source on every run (c22_resolver_code_reviewed). Per case the model is compared with the code and the oracle requires every accepted probe id in the output. '
+    'The edit family adds function-exit code injected among additions, deletions and conversions of functions and imports (F35).',
+    'Lean 4 proof (refinement to a stack machine, keeps theorems) + regenerated code skeleton (translator) + differential correspondence check',
     extra_families=[{'name': 'edit', 'quick_n': 1500, 'thorough_n': 100000, 'keys': ['inv']}])
 
 PROPS['C24'] = {
@@ -231,6 +234,8 @@ PROPS['C12'] = adds_prop('Built functions appear exactly as built', ['Orca/Props
     'Lean 4 theorems, one per clause: body = built instructions + one end and emitted verbatim (M14, M3), declared locals = requested sequence with fresh consecutive indices (M6), the function type is interned exactly and '
     'frames the existing types (M5), the returned id is the storage position that encode maps to the output index (M2), the name is handed over unchanged (M13/C29); tied to the code by building random functions among renumbering edits and decoding the output.',
     'Lean 4 proof (composition of the builder, locals, types, emission and index-space models) + differential correspondence check')
+PROPS['C12']['families'].append({'name': 'edit', 'quick_n': 1500, 'thorough_n': 100000, 'keys': ['inv']})
+PROPS['C12']['rule'] += ' Also the edit family: functions built with the function builder (added, or put in the place of an import) among additions, deletions and conversions - an encoded module that cannot be decoded holds no built function.'
 PROPS['C30'] = adds_prop('Module-level additions appear exactly as requested', ['Orca/Props/C30.lean'],
     'Lean 4 theorems: every InitInstr variant is encoded as the instruction it denotes and every constant payload keeps its bit pattern (tables regenerated from InitExpr::to_wasmencoder_type; f32/f64 through to_bits, '
     'v128 through u128-as-i128 and little-endian bytes: proved for all 16-byte vectors); reported ids are storage positions; mod_global_init_expr changes that initialiser only. Types, limits, bytes and export targets are '
@@ -336,7 +341,7 @@ SEM_TRUST = COMMON_TRUST + [
 ]
 def sem_prop(title, files, level_text, technique, with_lower=False):
     return {
-        'title': title, 'props_files': files,
+        'title': title, 'props_files': files, 'translator': True,
         'families': [{'name': 'sem', 'quick_n': 2500, 'thorough_n': 250000}] + ([{'name': 'lower', 'quick_n': 1500, 'thorough_n': 100000}] if with_lower else []),
         'rule': SEM_RULE + (' Also the injection plans of the `lower` family (every mode incl. block alternates, clear_instr_at, three API paths, flat model M3): a probe of this property\'s mode that is accepted and not in the encoded function is a violation.' if with_lower else ''),
         'trusted': SEM_TRUST,
